@@ -322,6 +322,7 @@ func (x *Exec) recv(ch *ChanV, commaOk bool) Value {
 		panic(pathEnd{"assume", "receive from nil channel blocks forever"})
 	}
 	x.raceAcquire(ch)
+	x.raceRelease(recvSide{ch}, true)
 	if len(ch.Buf) > 0 {
 		v := ch.Buf[0]
 		ch.Buf = ch.Buf[1:]
@@ -397,12 +398,27 @@ func (x *Exec) selectOp(fr *frame, ins *ssa.Select) Value {
 	}
 	for i, st := range ins.States {
 		if st.Dir != types.RecvOnly {
-			x.unsupported("select with send case")
+			// send case: ready when the (code-made, buffered) channel has room
+			ch, _ := x.get(fr, st.Chan).(*ChanV)
+			if ch == nil {
+				continue
+			}
+			if ch.Kind != "generic" || ch.Cap < 0 {
+				x.unsupported("select with a send case on a %s channel", ch.Kind)
+			}
+			if len(ch.Buf) < ch.Cap {
+				x.raceAcquire(recvSide{ch})
+				x.raceRelease(ch, true)
+				ch.Buf = append(ch.Buf, x.get(fr, st.Send))
+				return mk(i)
+			}
+			continue
 		}
 		ch, _ := x.get(fr, st.Chan).(*ChanV)
 		if x.branch(x.chanReady(ch)) {
 			if ch != nil {
 				x.raceAcquire(ch)
+				x.raceRelease(recvSide{ch}, true)
 			}
 			if ch != nil && len(ch.Buf) > 0 {
 				ch.Buf = ch.Buf[1:]
